@@ -150,8 +150,12 @@ def run_scenario(ctx, events, tids, counter, scn, files, roles):
         p = subprocess.run(core.cli_cmd(*a), cwd=d, env=core.cli_env(), capture_output=True, text=True)
         err = p.stderr[-200:] if p.returncode else None
     else:  # ncs/build.py storage --soc
-        a = [core.PY, str(core.REPO / "ncs" / "build.py"), "storage", "--storage-output-directory", str(outdir),
-             "--storage-address", hex(base), "--soc", soc]
+        # the build-system entry point; it insists on an image list and a Zephyr directory although `storage` uses neither:
+        # an image without binary and devicetree is enough
+        dummy = d / "dummy.config"
+        dummy.write_text("CONFIG_VERIF=y\n")
+        a = [core.PY, str(core.REPO / "ncs" / "build.py"), "storage", "--core", f"verif,,,{dummy}", "--zephyr-base", str(d),
+             "--storage-output-directory", str(outdir), "--storage-address", hex(base), "--soc", soc]
         for f in files:
             a += ["--input-envelope", str(f)]
         if cfg:
@@ -268,6 +272,8 @@ def scenarios(ctx, hists):
         via = "lib"
         if k % 7 == 0 and h["soc"] == "nrf54h20":
             via = "cli"
+        elif k % 7 == 3:
+            via = "build"   # ncs/build.py storage --soc: the only command-line path to the nRF9280 layout
         out.append({"origin": "tlc", "soc": h["soc"], "base": bases[k % len(bases)], "via": via, "list": lst,
                     "kconfig": kconf, "edge": k % 5 == 0, "fault": h["fault"], "expect_written": h["written"]})
     # all 11 roles at once on both SoCs; every single role at the slot-size edge
